@@ -385,12 +385,16 @@ func (r *Run) finish(replaying bool) int {
 		bySig[v.Sig] = append(bySig[v.Sig], v)
 	}
 	sort.Strings(sigs)
-	os.MkdirAll(filepath.Join(Root, "replays"), 0o755)
+	outRoot := Root
+	if o := os.Getenv("VERIF_OUT"); o != "" {
+		outRoot = o // scratch runs (e.g. against a seeded worktree) must not overwrite the committed evidence
+	}
+	os.MkdirAll(filepath.Join(outRoot, "replays"), 0o755)
 	var vioOut []any
 	for _, s := range sigs {
 		v := bySig[s][0]
 		h := sha256.Sum256([]byte(s))
-		path := filepath.Join(Root, "replays", fmt.Sprintf("%s-%s.json", id, hex.EncodeToString(h[:5])))
+		path := filepath.Join(outRoot, "replays", fmt.Sprintf("%s-%s.json", id, hex.EncodeToString(h[:5])))
 		rep := map[string]any{"property": id, "tier": r.Tier, "seed": r.Seed, "violation": v, "same_signature_cases": r.sigCount[s]}
 		b, _ := json.MarshalIndent(rep, "", " ")
 		os.WriteFile(path, b, 0o644)
@@ -460,9 +464,9 @@ func (r *Run) finish(replaying bool) int {
 		"property_id": id, "tier": r.Tier, "seed": r.Seed, "level": r.Check.Category,
 		"coverage": cov, "assumptions": r.Check.Assume, "wall_s": wall, "violations": len(sigs),
 	}
-	os.MkdirAll(filepath.Join(Root, "evidence"), 0o755)
+	os.MkdirAll(filepath.Join(outRoot, "evidence"), 0o755)
 	b, _ := json.MarshalIndent(ev, "", " ")
-	if err := os.WriteFile(filepath.Join(Root, "evidence", id+".json"), b, 0o644); err != nil {
+	if err := os.WriteFile(filepath.Join(outRoot, "evidence", id+".json"), b, 0o644); err != nil {
 		fmt.Printf("HARNESS-ERROR cannot write evidence: %v\n", err)
 		return 2
 	}
